@@ -811,6 +811,10 @@ impl<'a> Lexer<'a> {
         // need to relook at column count when deep diving into line feed, form feed, carriage return parsing
         if c != '\n' {
             self.text_column += 1;
+        } else if self.state == LexingState::CharList || self.state == LexingState::ByteList {
+            // newline inside a text or byte literal, wrap coordinates to new line
+            self.text_column = 0;
+            self.text_row += 1;
         }
 
         next_token
